@@ -16,7 +16,7 @@ from mc.seams import Pruned, ScriptedSocket
 
 
 class Exec:
-    __slots__ = ("choices", "menus", "obs", "pruned", "sock")
+    __slots__ = ("choices", "menus", "obs", "pruned", "sock", "starved")
 
     def __init__(self):
         self.choices = []   # chosen menu index at every choice point
@@ -24,6 +24,7 @@ class Exec:
         self.obs = None
         self.pruned = False
         self.sock = None
+        self.starved = None  # (choice index, bytes delivered, items yielded): a recv() made while a complete record was waiting to be yielded
 
 
 def menu_for(n, remaining):
@@ -36,11 +37,12 @@ def menu_for(n, remaining):
 
 
 class EnvExplorer:
-    def __init__(self, data: bytes, drive, *, stateful=True, max_execs=400_000, inspect=True, allow_close=False):
+    def __init__(self, data: bytes, drive, *, stateful=True, max_execs=400_000, inspect=True, allow_close=False, waiting=None):
         """drive(sock, on_item) -> observation (any comparable value); must create a fresh generator."""
         self.data = data
         self.drive = drive
         self.allow_close = allow_close  # crash points: the peer may close at any choice point
+        self.waiting = waiting          # waiting(bytes delivered, items yielded) -> True if a complete record is buffered but not yet yielded
         self.stateful = stateful
         self.inspect = inspect and stateful
         self.max_execs = max_execs
@@ -63,6 +65,8 @@ class EnvExplorer:
 
         def decide(n, remaining, key, sock):
             i = len(ex.choices)
+            if self.waiting is not None and ex.starved is None and self.waiting(sock.delivered, n_items[0]):
+                ex.starved = (i, sock.delivered, n_items[0])
             menu = menu_for(n, remaining)
             if self.allow_close and remaining > 0:
                 menu = menu + [0]
